@@ -580,6 +580,25 @@ def objects(P, img, rich=False):
     return out
 
 
+def overlay_blocks(P):
+    """blocks the library marks in memory whatever the on-disk bitmaps say: bitmaps and inode table of BLOCK_UNINIT groups"""
+    geo = P["geo"]; s = set()
+    for g in P["gd"]:
+        if "BLOCK_UNINIT" in g["flags"]:
+            s.add(g["bb"]); s.add(g["ib"]); s.update(range(g["it"], g["it"] + geo["itb"]))
+    return s
+
+
+def is_overlay(P, ov, o, off, bit):
+    if o["type"] != "bb":
+        return 0
+    geo = P["geo"]
+    g = int(o["name"][2:])
+    c = g * geo["cpg"] + off * 8 + bit
+    lo = geo["first"] + c * geo["cr"]
+    return int(any(bk in ov for bk in range(lo, lo + geo["cr"])))
+
+
 def obj_size(o):
     return {"sb": 1024, "mmp": 1024, "jsb": 1024, "gd": o["dsize"], "inode": o["isize"]}.get(o["type"], o["bs"])
 
@@ -683,13 +702,15 @@ def clause_b(b, ev, vd, tier, work, rng, rich, mmp):
         objs = objects(P, imgs[p], p in isrich)
         if tier == "quick" and p in isrich and p != "g128_i512_crc32c_noflex":
             objs = [o for o in objs if o["type"] in ("gd", "bb", "ib", "inode")]      # what depends on the descriptor / inode size
+        ov = overlay_blocks(P)
         for o in objs:
             # one complete sweep per object type and per size the covered range depends on
             fkey = (o["type"], o["dsize"] if o["type"] == "gd" else min(o["dsize"], 64) if o["type"] in ("bb", "ib") else 0, o["isize"], o["hi"])
             full = tier == "thorough" and fkey not in full_done and obj_size(o) <= 1024
             if full: full_done.add(fkey)
             for off in offsets(o, tier, rng, full, p in isrich):
-                cases.append((p, o, off, rng.randrange(8), before))
+                bit = rng.randrange(8)
+                cases.append((p, dict(o, overlay=is_overlay(P, ov, o, off, bit)), off, bit, before))
     with cf.ProcessPoolExecutor(max_workers=JOBS) as ex:
         res = list(ex.map(flip_case, [(b, imgs[p], o, off, bit, before, work, i) for i, (p, o, off, bit, before) in enumerate(cases)], chunksize=4))
     lines, keep = [], []
@@ -698,7 +719,7 @@ def clause_b(b, ev, vd, tier, work, rng, rich, mmp):
         if r_["stale"] < 0:
             undec += 1; continue
         d = {k: o[k] for k in ("type", "isize", "hi", "dsize", "nbytes", "ehmax", "bs", "coff", "count", "tail")}
-        d.update(off=off, stale=r_["stale"], fsck=r_["fsck"], lib=r_["lib"])
+        d.update(off=off, stale=r_["stale"], fsck=r_["fsck"], lib=r_["lib"], overlay=o.get("overlay", 0))
         lines.append(json.dumps(d)); keep.append((p, o, off, bit, r_))
     sub = os.path.join(work, "tvb"); os.makedirs(sub, exist_ok=True)
     res2 = validate_b(lines, sub)
@@ -712,6 +733,12 @@ def clause_b(b, ev, vd, tier, work, rng, rich, mmp):
     for p, o, off, bit, r_ in keep:
         if r_["stale"] >= 1:
             nobl += 1; ev.nontrivial(("b", p, o["name"], off))
+    for i in res2["dev"]:
+        p, o, off, bit, r_ = keep[i]
+        vd.violation("b|bb|DevUninitOverlayHidesFlip" if o["type"] == "bb" else "b|jsb|DevJsbNrUsersClearsV2",
+                     "bit %d of covered byte %d of %s (%s, profile %s) flipped, stored checksum stale: e2fsck -fn exit %d, library %s" %
+                     (bit, off, o["name"], o["type"], p, r_["fsck"], ("error: " + r_["libmsg"]) if r_["lib"] else "accepted the object"),
+                     {"clause": "b", "profile": p, "object": {k: v for k, v in o.items()}, "off": off, "bit": bit, "result": r_})
     for i in res2["bad"]:
         p, o, off, bit, r_ = keep[i]
         # key = object type + which detector failed; for e2fsck: whether it printed a checksum complaint and still exited 0
@@ -730,8 +757,8 @@ def clause_b(b, ev, vd, tier, work, rng, rich, mmp):
 
 def validate_b(lines, workdir, chunk=400):
     """like tracecheck.validate_lines, additionally collecting DISAGREE lines"""
-    r = validate_tagged(lines, workdir, "Trace_CsumCoverage", ("BADLINE", "DISAGREE"), chunk)
-    return dict(bad=r["BADLINE"], disagree=r["DISAGREE"], broken=r["broken"], distinct=r["distinct"], generated=r["generated"])
+    r = validate_tagged(lines, workdir, "Trace_CsumCoverage", ("BADLINE", "DISAGREE", "DEVLINE"), chunk)
+    return dict(bad=r["BADLINE"], disagree=r["DISAGREE"], dev=r["DEVLINE"], broken=r["broken"], distinct=r["distinct"], generated=r["generated"])
 
 
 def validate_u(lines, workdir, chunk=200):
@@ -832,9 +859,9 @@ def replay_one(b, rp, work):
         o = rp["object"]
         r_ = flip_case((b, src, o, rp["off"], rp["bit"], before, work, 0))
         d = {k: o[k] for k in ("type", "isize", "hi", "dsize", "nbytes", "ehmax", "bs", "coff", "count", "tail")}
-        d.update(off=rp["off"], stale=r_["stale"], fsck=r_["fsck"], lib=r_["lib"])
+        d.update(off=rp["off"], stale=r_["stale"], fsck=r_["fsck"], lib=r_["lib"], overlay=is_overlay(P, overlay_blocks(P), o, rp["off"], rp["bit"]))
         res = validate_b([json.dumps(d)], os.path.join(work, "tvr"))
         if res["broken"]:
             die_broken("TLC failed: %s" % res["broken"][0]["error"])
-        return {"violated": bool(res["bad"]), "result": r_}
+        return {"violated": bool(res["bad"] or res["dev"]), "deviation": bool(res["dev"]), "result": r_}
     die_broken("unknown replay clause %r" % (cl,))
